@@ -1,5 +1,5 @@
 (* C06 — memory is a transparent cache: at most one objective call per point.  Statements only. *)
-Require Import Base StopRun Converter Driver DriverObs DriverFacts ConverterFacts MemFacts C04_proofs Shared SharedFacts.
+Require Import Base StopRun Converter Driver DriverObs DriverFacts ConverterFacts MemFacts C04_proofs Shared SharedFacts C06_sim.
 From Coq Require Import Bool.
 
 (* single process (call_record): with memory on, the objective calls of a call are pairwise distinct
@@ -9,6 +9,16 @@ From Coq Require Import Bool.
 Theorem C06_memory_cache_exact : forall (OP : optimizer) sp f0 clk, @C04_statement OP sp f0 clk.
 Proof. exact (@C04_holds). Qed.
 Print Assumptions C06_memory_cache_exact.
+
+(* transparency: for a deterministic objective (no warm start) the memory=True call goes in lock step with the
+   memory=False call from the same state: same rows, positions, scores, best, counters, times and the same
+   optimizer state — for every optimizer, clock and prior history (a simulation proof) *)
+Theorem C06_memory_transparent : forall (OP : optimizer) sp f0 clk (s s1 : drv OP) (c : call),
+  c_memory c = true -> c_warm c = None ->
+  search sp (fun _ v => f0 v) clk s c = Ok s1 ->
+  exists s2, search sp (fun _ v => f0 v) clk s (call_off c) = Ok s2 /\ same_run s1 s2.
+Proof. exact (@memory_transparent). Qed.
+Print Assumptions C06_memory_transparent.
 
 (* N processes on one shared dictionary, EVERY interleaving of the atomic contains/get/set operations:
    no get ever fails, the dictionary only holds objective values, every reported score equals
